@@ -508,6 +508,14 @@ func run(c *core.Ctx) {
 		} else {
 			c.Count("accepted_by_reactor", 1)
 		}
+		if !victim.CS.VerifStateLockFree() {
+			// nothing in this synchronous harness holds the state mutex: a message handler returned without
+			// releasing it, and every later step of the node (messages, timeouts, RPC) blocks on it for ever
+			victim.Dead = true
+			c.Violation("state-lock-leaked/"+hm.Kind, fmt.Sprintf("victim v%d in %s at %d/%d: after a %s message (mutated: %s; sender role %s) was handled by the reactor, the consensus state mutex is still held: the node is halted", victim.ID, rs.Step, rs.Height, rs.Round, hm.Kind, hm.Fields, att.role),
+				map[string]interface{}{"message": fmt.Sprintf("%v", hm.msg), "raw_hex": fmt.Sprintf("%x", raw), "sent_before": sent})
+			break
+		}
 		n, p, stack := victim.CS.VerifDrainPeerQueue()
 		for _, fm := range hm.more {
 			if p != nil {
